@@ -1903,8 +1903,10 @@ class rx:
         return self._apply_operator(operator.or_, other)
     def __rshift__(self, other):
         return self._apply_operator(operator.rshift, other)
-    def __pow__(self, other):
-        return self._apply_operator(operator.pow, other)
+    def __pow__(self, other, mod=None):
+        if mod is None:
+            return self._apply_operator(operator.pow, other)
+        return self._apply_operator(pow, other, mod)
     def __sub__(self, other):
         return self._apply_operator(operator.sub, other)
     def __truediv__(self, other):
@@ -1925,6 +1927,8 @@ class rx:
         return self._apply_operator(operator.floordiv, other, reverse=True)
     def __rlshift__(self, other):
         return self._apply_operator(operator.lshift, other, reverse=True)
+    def __rmatmul__(self, other):
+        return self._apply_operator(operator.matmul, other, reverse=True)
     def __rmod__(self, other):
         return self._apply_operator(operator.mod, other, reverse=True)
     def __rmul__(self, other):
